@@ -112,6 +112,7 @@ func (c02) Run(c core.Case, w *core.Worker) core.Result {
 	ioObserver(io, dir, &res)
 	defer io.Install()()
 	s := core.NewSession(dir, cc.Cfg, &res)
+	s.Spell = c.Index%2 == 1
 	s.IO = io
 	r := core.NewRng(c.Seed)
 	g := &core.Gen{R: r, Keys: core.GenKeys(r, cc.NKeys), Cfg: cc.Cfg, EndOff: io.ActiveEnd, RestartCfg: readerCfg(cc.Cfg)}
